@@ -30,6 +30,7 @@ TRUSTED = C05.TRUSTED
 
 def _world():
     w = C05._world()
+    w.globals['isfinite'] = lambda I, x: SV(BOOL, th.is_fin(coerce(x if isinstance(x, SV) else lift(x), NUM).t))
     f = th.func('chi2_sf', th.Num, th.Num, th.Num)
 
     def sf(I, x, ndf):
@@ -88,12 +89,16 @@ def _test_world(nd, ignore):
 
 
 def c_nonzero(nd, ignore):
+    req = []
     if ignore:
-        per = ' and '.join(f'all(same(result[{k}][i], self.dsref.error[i] > 0 or self.datasets[{k}].error[i] > 0) for i in range(self.dsref.error.size)) and '
+        # the statement of C07: exactly the bins where both errors are zero are left out; domain of the option: finite non-negative errors
+        per = ' and '.join(f'all(same(result[{k}][i], not (self.dsref.error[i] == 0 and self.datasets[{k}].error[i] == 0)) for i in range(self.dsref.error.size)) and '
                            f'result[{k}].size == self.dsref.error.size' for k in range(nd))
+        req = ['all(isfinite(self.dsref.error[i]) and self.dsref.error[i] >= 0 for i in range(self.dsref.error.size))'] + \
+              [f'all(isfinite(self.datasets[{k}].error[i]) and self.datasets[{k}].error[i] >= 0 for i in range(self.dsref.error.size))' for k in range(nd)]
     else:
         per = ' and '.join(f'all(result[{k}][i] for i in range(self.dsref.value.size)) and result[{k}].size == self.dsref.value.size' for k in range(nd))
-    return Contract(CF, 'TestChi2._nonzero_bins', params={}, ensures=[('C07-used-bins', f'len(result) == {nd} and {per}')], signals={},
+    return Contract(CF, 'TestChi2._nonzero_bins', params={}, requires=req, ensures=[('C07-used-bins', f'len(result) == {nd} and {per}')], signals={},
                     variant=f'{nd}-datasets-' + ('ignore-empty' if ignore else 'all-bins'))
 
 
